@@ -86,3 +86,15 @@ def run(cx):
     _run_pow2(cx)
     # g^r / g^h: the GT exponentiation is a complete square-and-multiply over the four limbs of the exponent
     S.square_multiply(cx, 'I-POW', '<impl fields::fp12::Fp12>::pow')
+
+
+_run_hash = run
+
+
+def run(cx):
+    from .C16 import check_hash, check_from_hash
+    from .. import paramalg as _pa
+    _run_hash(cx)
+    # H1(ID || hid) is part of this property's statement: its framing and the hash-to-range reduction are decided here too
+    check_hash(cx, 'gm_sm9::key::sm9_u256_hash1', 'H1', _pa.sm9().consts['SM9_HASH1_PREFIX'], ['$id', 'array{$hid}'])
+    check_from_hash(cx)
